@@ -131,15 +131,25 @@ class Layout:
         return int(v).to_bytes(self.sizes[n], "little") if self.kinds[n] == "uint" else bytes(v)
 
     def random(self, rng):
+        """Field values, boundary-first for the integers (0, 1, max, sign boundary) so that every
+        decoded number meets the edges of its width."""
         vals = {}
         for (n, size, kind) in self.fields:
             if kind == "uint":
-                vals[n] = rng.getrandbits(8 * size)
+                vals[n] = rng.choice(uint_boundaries(size)) if rng.random() < 0.5 \
+                    else rng.getrandbits(8 * size)
             elif n.startswith("reserved"):
                 vals[n] = bytes(size)
             else:
                 vals[n] = rng.randbytes(size)
         return vals
+
+
+def uint_boundaries(size):
+    """Boundary values of an unsigned integer of `size` bytes: 0, 1, max, only the top bit set, and
+    the two values around the sign boundary of the same width (0x7f..ff, 0x80..01)."""
+    bits = 8 * size
+    return (0, 1, (1 << bits) - 1, 1 << (bits - 1), (1 << (bits - 1)) - 1, (1 << (bits - 1)) + 1)
 
 
 # sgx_report_body_t (384 bytes); sgx_attributes_t {uint64 flags; uint64 xfrm} is inlined
@@ -610,7 +620,8 @@ def build(spec, rng, now=None):
         custom = b"POWHSM:5.4::sgx" + rng.randbytes(rng.choice((1, 32, 112, 200)))
     custom = bytes(custom)
     header = QUOTE_HEADER.random(rng)
-    header.update({"version": 3, "sign_type": 2, "tee_type": 0})
+    if not vary:                   # (with vary_content these three meet their numeric boundaries too)
+        header.update({"version": 3, "sign_type": 2, "tee_type": 0})
     header.update(q.get("header") or {})
     body = REPORT_BODY.random(rng)
     body.update(q.get("body") or {})
